@@ -110,7 +110,7 @@ package document
 // new object too. The code appends the source's pointer instead ("其他类型暂时直接复制引用"): the rendered
 // document shares such elements with the template's base document. Recorded as a known finding (C17).
 //@ func (*TemplateEngine).cloneDocument
-//@ props C17
+//@ props C17, C02
 //@ ghost B int = allocBound()
 //@ ignore-ensures deepcopy
 //@ requires te != nil && source != nil && source.Body != nil && elemsOK(source.Body.Elements) && sectRefsOK(source.Body.Elements) && mediaFresh(source) && source.nextImageID >= 0
